@@ -52,6 +52,7 @@ type ksGen struct {
 	everEx map[string]int // wallet -> number of external indexes registered anywhere
 	jsons  []kgJSON
 	nPub   int
+	h      int // history number: drives the deterministic part of the coverage
 }
 
 type kgJSON struct {
@@ -102,6 +103,9 @@ func (k *ksGen) create(in *kgInst) *kgWallet {
 	k.nW++
 	w := &kgWallet{name: fmt.Sprintf("W%d", k.nW)}
 	bits := []int{128, 160, 192, 224, 256}[k.g.Rng.Intn(5)]
+	if k.nW == 1 {
+		bits = []int{128, 160, 192, 224, 256}[k.h%5]
+	}
 	k.op(fmt.Sprintf("create-e%d", bits), "create %d %s %d", in.n, w.name, bits)
 	in.wallets[w.name] = w
 	in.order = append(in.order, w.name)
@@ -375,11 +379,24 @@ func (k *ksGen) export(in *kgInst, w *kgWallet) kgJSON {
 }
 
 // restore brings wallet w of instance src into a fresh instance.
-func (k *ksGen) restore(src *kgInst, w *kgWallet, n int) *kgInst {
+// forced: 0 mnemonic hint 0, 1 mnemonic hint ≤ n, 2 mnemonic with internal hint, 3 fresh file, 4 stale file, else random
+func (k *ksGen) restore(src *kgInst, w *kgWallet, n int, forced int) *kgInst {
 	r := k.g.Rng
 	g := src.gap
 	full := r.Intn(3) == 0 // restore with complete counters (export now / full hint): any gap works
 	kind := r.Intn(5)
+	switch forced {
+	case 0, 1, 2:
+		kind, full = 0, false
+	case 3:
+		kind, full = 4, true
+	case 4:
+		kind, full = 4, false
+	}
+	if forced == 0 && w.ex >= 2 {
+		// make the scan run beyond the hint
+		k.block(src, []string{exName(w.name, w.ex-1)}, true)
+	}
 	var js *kgJSON
 	if kind >= 3 {
 		// exported file: fresh, or a stale one of the same wallet
@@ -389,7 +406,7 @@ func (k *ksGen) restore(src *kgInst, w *kgWallet, n int) *kgInst {
 				stale = append(stale, j)
 			}
 		}
-		if len(stale) > 0 && !full && r.Intn(2) == 0 {
+		if len(stale) > 0 && !full && (forced == 4 || r.Intn(2) == 0) {
 			j := stale[r.Intn(len(stale))]
 			js = &j
 			k.g.Stats["restore-json-stale"]++
@@ -432,7 +449,11 @@ func (k *ksGen) restore(src *kgInst, w *kgWallet, n int) *kgInst {
 		}
 	} else {
 		he := 0
-		switch r.Intn(4) {
+		hk := r.Intn(4)
+		if forced == 0 || forced == 1 {
+			hk = forced
+		}
+		switch hk {
 		case 0:
 			he = 0
 			k.g.Stats["restore-mnemonic-hint0"]++
@@ -450,14 +471,14 @@ func (k *ksGen) restore(src *kgInst, w *kgWallet, n int) *kgInst {
 			he = w.ex
 		}
 		hi := 0
-		if r.Intn(3) == 0 {
+		if forced == 2 || (forced > 4 && r.Intn(3) == 0) {
 			hi = 1 + r.Intn(4)
 			k.g.Stats["restore-internal-hint"]++
 		}
 		// the sentence as typed: canonical, or the same words with other white space
 		sp := 0
-		if r.Intn(2) == 0 {
-			sp = 1 + r.Intn(5)
+		if forced <= 2 || r.Intn(2) == 0 {
+			sp = 1 + (k.h+r.Intn(2))%5
 			k.g.Stats["restore-mnemonic-respaced"]++
 			k.g.Stats[fmt.Sprintf("respaced-%d", sp)]++
 		}
@@ -488,7 +509,7 @@ func (k *ksGen) restore(src *kgInst, w *kgWallet, n int) *kgInst {
 			k.op("restart", "restart %d", n)
 		}
 		var pays []string
-		if r.Intn(2) == 0 {
+		if forced == 2 || r.Intn(2) == 0 {
 			pays = append(pays, fmt.Sprintf("%s.1.%d", w.name, r.Intn(nw.in)))
 			k.g.Stats["pay-internal"]++
 		} else {
@@ -581,19 +602,69 @@ func (k *ksGen) step(in *kgInst) {
 	}
 }
 
+// prelude: the deterministic part of the coverage (every required class occurs in every few histories)
+func (k *ksGen) prelude(in *kgInst) {
+	w := in.wallets[in.order[0]]
+	k.newaddr(in, w)
+	if k.h%3 == 0 {
+		k.op("unlock", "unlock %d %s", in.n, w.name)
+		w.priv, w.unl = true, true
+		k.newaddr(in, w)
+		k.sign(in, w)
+		k.op("lock", "lock %d", in.n)
+		w.priv, w.unl = false, false
+	}
+	k.sign(in, w)
+	k.op("lock", "lock %d", in.n)
+	w.unl = false
+	// a first payment, then a reorganisation that removes it
+	k.block(in, []string{exName(w.name, w.ex-1)}, true)
+	k.reorg(in, 1)
+	k.catchUp(in)
+	// every payment form
+	for f := 0; f < 3; f++ {
+		k.block(in, []string{exName(w.name, k.g.Rng.Intn(w.ex)), exName(w.name, w.ex-1)}, true)
+	}
+	if k.h%2 == 0 {
+		// ask until refused
+		for i := 0; i < in.gap+2 && in.mayIssue(w); i++ {
+			k.newaddr(in, w)
+		}
+		k.newaddr(in, w)
+	}
+	if k.h%6 == 4 {
+		k.export(in, w) // a file that will be stale at restore time
+		k.newaddr(in, w)
+	}
+	if k.h%4 == 2 {
+		k.nPub++
+		in.pub = fmt.Sprintf("Newpub%d#abc", k.nPub)
+		k.op("chpub", "chpub %d %s", in.n, in.pub)
+		k.op("restart-after-chpub", "restart %d", in.n)
+	} else {
+		k.op("restart", "restart %d", in.n)
+	}
+	k.observe(in)
+}
+
 func genKs(g *Gen) {
 	nHist := g.Scale(24, 420)
 	for h := 0; h < nHist; h++ {
-		k := &ksGen{g: g, insts: map[int]*kgInst{}, everEx: map[string]int{}}
+		k := &ksGen{g: g, insts: map[int]*kgInst{}, everEx: map[string]int{}, h: h}
 		g.Reset()
 		k.op("params", "i 1 params 1 1")
-		in1 := k.inst(1, k.pickGap())
+		gap := k.pickGap()
+		if h < 10 {
+			gap = []int{2, 3, 5, 9, 15}[h%5]
+		}
+		in1 := k.inst(1, gap)
 		k.create(in1)
-		if g.Rng.Intn(4) == 0 {
+		if h%4 == 1 || g.Rng.Intn(6) == 0 {
 			k.create(in1)
 			g.Stats["second-wallet"]++
 		}
-		steps := 10 + g.Rng.Intn(g.Scale(25, 45))
+		k.prelude(in1)
+		steps := 6 + g.Rng.Intn(g.Scale(22, 40))
 		for s := 0; s < steps; s++ {
 			k.step(in1)
 		}
@@ -602,11 +673,20 @@ func genKs(g *Gen) {
 		// restores
 		nInst := 1
 		cur := in1
-		for rr := 0; rr < 1+g.Rng.Intn(2); rr++ {
+		nRest := 1 + g.Rng.Intn(2)
+		if h%2 == 0 {
+			nRest = 2
+		}
+		for rr := 0; rr < nRest; rr++ {
 			src := cur
 			w := src.wallets[src.order[g.Rng.Intn(len(src.order))]]
+			forced := 99
+			if rr == 0 {
+				forced = h % 6
+				w = src.wallets[src.order[0]]
+			}
 			nInst++
-			dst := k.restore(src, w, nInst)
+			dst := k.restore(src, w, nInst, forced)
 			if nInst >= 3 {
 				g.Stats["third-instance"]++
 			}
